@@ -47,6 +47,10 @@ func richAP() *ap.AP {
 		{Locs: []ap.Loc{L(0, 0x1010, x), L(0, 0x1020, y)}, Values: []int64{1, 100}, Labels: map[string][]string{"k": {"v"}}, NumLabel: map[string][]int64{"bytes": {1024}}, NumUnit: map[string][]string{"bytes": {"bytes"}}},
 		{Locs: []ap.Loc{L(0, 0x1010, x), L(1, 0x8030, y, z)}, Values: []int64{2, -50}, Labels: map[string][]string{"k": {"w", "v"}}},
 		{Locs: []ap.Loc{{Map: 1, Addr: 0x8040}}, Values: []int64{3, 7}, NumLabel: map[string][]int64{"q": {5, 6}}},
+		// zero in the count column (the mean divisor), zero in the selected column, a frameless sample
+		{Locs: []ap.Loc{L(0, 0x1020, y)}, Values: []int64{0, 9}},
+		{Locs: []ap.Loc{L(0, 0x1020, y), L(0, 0x1010, x)}, Values: []int64{4, 0}},
+		{Values: []int64{0, 0}},
 	}
 	return a
 }
